@@ -30,6 +30,29 @@ func chainWithTimes(ts []int64) []*vhdr.Header {
 	return out
 }
 
+// subjTail calls VerifSubjectiveTail and gives up after `limit` of REAL time, whatever the call blocks on (a lock that is
+// never released is not released by a context either): "hang".
+func subjTail(s *hsync.Syncer[*vhdr.Header], ctx context.Context, head *vhdr.Header, limit time.Duration) error {
+	done := make(chan error, 1)
+	go func() {
+		defer func() {
+			if r := recover(); r != nil {
+				done <- errPanicked
+			}
+		}()
+		_, err := s.VerifSubjectiveTail(ctx, head)
+		done <- err
+	}()
+	select {
+	case err := <-done:
+		return err
+	case <-time.After(limit):
+		return context.DeadlineExceeded
+	}
+}
+
+var errPanicked = errors.New("panicked")
+
 func guard(f func() string) (res string) {
 	defer func() {
 		if r := recover(); r != nil {
@@ -119,7 +142,10 @@ func c16Move(ts []int64, lo int, window, bt time.Duration, netExtra int, syncFro
 			// bounded: a tail computation that parks on a height above the store head never returns by itself
 			cctx, cancel := context.WithTimeout(ctx, 1500*time.Millisecond)
 			defer cancel()
-			_, err := s.VerifSubjectiveTail(cctx, head)
+			err := subjTail(s, cctx, head, 3*time.Second)
+			if errors.Is(err, errPanicked) {
+				return "panic"
+			}
 			if errors.Is(err, context.DeadlineExceeded) {
 				return "hang"
 			}
@@ -398,7 +424,10 @@ func c16EmptyInit(ts []int64, window, bt time.Duration, syncFromHeight uint64) {
 		return guard(func() string {
 			cctx, cancel := context.WithTimeout(ctx, 1500*time.Millisecond)
 			defer cancel()
-			_, err := s.VerifSubjectiveTail(cctx, head)
+			err := subjTail(s, cctx, head, 3*time.Second)
+			if errors.Is(err, errPanicked) {
+				return "panic"
+			}
 			if errors.Is(err, context.DeadlineExceeded) {
 				return "hang"
 			}
@@ -443,7 +472,10 @@ func c16HashPin(ts []int64, pin int, window, bt time.Duration, syncFromHeight ui
 		rs = append(rs, guard(func() string {
 			cctx, cancel := context.WithTimeout(ctx, 1500*time.Millisecond)
 			defer cancel()
-			if _, err := s.VerifSubjectiveTail(cctx, chain[hd-1]); err != nil {
+			if err := subjTail(s, cctx, chain[hd-1], 3*time.Second); err != nil {
+				if errors.Is(err, errPanicked) {
+					return "panic"
+				}
 				return "err"
 			}
 			return "ok"
